@@ -71,9 +71,12 @@ template <class Gr> static void dumpBase(std::ostream &o, const Gr &g) {
         return s.str();
     }) << "\n";
     o << "V " << guard([&] {
-        std::vector<VertexIndex> vs;
+        std::vector<VertexIndex> vs, ps;
         for (VertexIndex v : g) vs.push_back(v);
-        return joinSeq(vs);
+        // the same traversal written with post-increment (`*it++`)
+        auto it = g.begin();
+        while (it != g.end()) ps.push_back(*it++);
+        return "pre: " + joinSeq(vs) + " | post: " + joinSeq(ps);
     }) << "\n";
 }
 
@@ -464,21 +467,21 @@ template <bool UND> struct WgSlot : SlotBase {
     template <bool U = UND> typename std::enable_if<U, bool>::type recip(const Args &, std::string &) { return false; }
 
     bool mutate(const std::string &verb, const Args &a, std::string &out) override {
-        VertexIndex i, j; long long w; bool f; size_t n;
+        VertexIndex i, j; long double w; bool f; size_t n;
         if (verb == "resize") {
             if (a.size() != 1 || !ps(a[0], n)) return false;
             out = guard([&] { g.resize(n); return std::string("ok"); });
             return true;
         }
         if (verb == "addEdge") {
-            if (a.size() != 4 || !pv(a[0], i) || !pv(a[1], j) || !pl(a[2], w) || !pf(a[3], f)) return false;
-            out = guard([&] { g.addEdge(i, j, w / 4.0, f); return std::string("ok"); });
+            if (a.size() != 4 || !pv(a[0], i) || !pv(a[1], j) || !pw(a[2], w) || !pf(a[3], f)) return false;
+            out = guard([&] { g.addEdge(i, j, (double)(w / 4.0L), f); return std::string("ok"); });
             return true;
         }
         if (verb == "addReciprocalEdge") return recip(a, out);
         if (verb == "setEdgeWeight") {
-            if (a.size() != 3 || !pv(a[0], i) || !pv(a[1], j) || !pl(a[2], w)) return false;
-            out = guard([&] { g.setEdgeWeight(i, j, w / 4.0); return std::string("ok"); });
+            if (a.size() != 3 || !pv(a[0], i) || !pv(a[1], j) || !pw(a[2], w)) return false;
+            out = guard([&] { g.setEdgeWeight(i, j, (double)(w / 4.0L)); return std::string("ok"); });
             return true;
         }
         if (verb == "removeEdge") {
